@@ -45,10 +45,12 @@ POISONS = {
     'aggregate-over-empty': ['max([r.amt for r in rows if r.amt > 1e12]) > 0', 'min(r.qty for r in rows if false) == 0', 'max(r.amt for r in empty) > 1'],
     'next-exhausted': ['next(r.amt for r in rows if r.amt > 1e12) > 0', 'next(r for r in empty).amt > 0'],
     'unknown-name': ['field.nope == "x"', 'nosuchvar > 1', 'txn.nope == 1', 'nosuchfunction(1) > 0', 'any(r.nope == 1 for r in orders)'],
-    'bad-regex': ['regex("(")', 'extract("[a-") == ""', 'regex_replace(description, "(", "") == ""', 'regex(description, "*")'],
+    'bad-regex': ['regex("(")', 'extract("[a-") == ""', 'regex_replace(description, "(", "") == ""', 'regex(description, "*")',
+                  'not regex("(")', 'not regex(description, "*")', 'regex("[a-") or true', 'not (extract("[a-") == "x")', 'regex("(?P<n>") == false'],
     'wrong-subscript': ['rows["x"].amt > 0', 'orders[99].amt > 0', 'rows[0][0] > 0', 'amount[0] > 1'],
     'len-of-number': ['len(5) > 0', 'len(amount) > 0'],
-    'iterate-number': ['any(x for x in amount)', 'len([x for x in 5]) > 0', 'sum(x for x in month) > 0'],
+    'iterate-number': ['any(x for x in amount)', 'len([x for x in 5]) > 0', 'sum(x for x in month) > 0', '(d for d in amount)', '(k for k in field.nope)',
+                       '[d for d in amount]', '(x.y for x in 5)'],
     'in-with-number': ['"a" in 5', 'description in amount', '1 in amount'],
     'invalid-iso-date': ['field.date > "2025-13-45"', 'txn.date <= "yesterday"'],
     'date-arithmetic': ['abs(date - "2025-01-01") <= 3', 'date + 1 > date', 'date - txn.date <= 3'],
@@ -64,17 +66,22 @@ VIEW_POISONS = ['sum(by("month")) > 100', 'category > 5', 'payments > 3', 'month
 
 
 def poison_fails(txns_states, poison, rows):
-    """The real evaluator decides: True iff the bare poison cannot be evaluated on every given state of the item."""
+    """The real evaluator decides: True iff the bare poison cannot be evaluated on every given state of the item.
+    Each state is evaluated twice: an expression that fails once and then evaluates (or the reverse) is reported as 'unstable'."""
     from tally import expr_parser as ep
+    verdicts = []
     for t in txns_states:
-        try:
-            ep.evaluate_transaction(poison, copy.deepcopy(t), {}, O.copy_rows(rows))
-            return False
-        except ep.ExpressionError:
-            continue
-        except Exception:
-            continue     # a leaked Python error is still "cannot be evaluated"; the leak itself shows up at the call site
-    return True
+        for _ in range(2):
+            try:
+                ep.evaluate_transaction(poison, copy.deepcopy(t), {}, O.copy_rows(rows))
+                verdicts.append(False)
+            except Exception:
+                verdicts.append(True)   # ExpressionError, or a leaked Python error: either way "cannot be evaluated"
+    if all(verdicts):
+        return True
+    if any(verdicts[i] != verdicts[i + 1] for i in range(0, len(verdicts), 2)):
+        return 'unstable'
+    return False
 
 
 def poisoned(rf, pos, poison, rnd):
@@ -123,6 +130,10 @@ def same(a, b, parts=('triple', 'tags', 'fields')):
 
 
 def judge(rec, rf, cls, poison, pos, txns, rows, tmp, rnd):
+    if poison.startswith('(') and ' for ' in poison and pos in ('match-and', 'match-or'):
+        # a bare generator expression is lazy: as an operand of and/or it is merely truthy and never consumed, so it does not fail there;
+        # it only fails where it is the WHOLE value (which the evaluator materialises)
+        pos = 'match-whole'
     rf2, base, _, pos, ori = poisoned(rf, pos, poison, rnd)
     case0 = {'kind': 'poison', 'rf': rf.to_json(), 'cls': cls, 'poison': poison, 'pos': pos, 'rows': rows, 'rf2': rf2.to_json()}
     try:
@@ -144,7 +155,12 @@ def judge(rec, rf, cls, poison, pos, txns, rows, tmp, rnd):
             tt = R.apply_transforms_ref(txn, rf.transforms)
         except R.OutOfDomain:
             continue
-        if not poison_fails([txn, tt], poison, rows):
+        pf = poison_fails([txn, tt], poison, rows)
+        if pf == 'unstable':
+            rec.violation('failure-to-evaluate-is-not-stable', f'{cls}: {poison!r} cannot be evaluated the first time and evaluates the second time (or the reverse) on the '
+                          f'same transaction {txn.get("description")!r}: whether the rule is skipped depends on what was evaluated before', case)
+            continue
+        if not pf:
             rec.count('poison_evaluates_here')
             continue
         rec.count('poison_confirmed_failing')
@@ -223,7 +239,7 @@ def judge_parse(rec, rf, cls, poison, pos, rows, tmp, rnd):
     """parse_generic_csv with a poisoned rules file returns the same transactions as with the clean comparison file."""
     from tally.format_parser import parse_format_string
     from tally.parsers import parse_generic_csv
-    if pos == 'match-or':
+    if pos == 'match-or' or (poison.startswith('(') and ' for ' in poison and pos == 'match-and'):
         return
     rf2, base, _, pos, _ = poisoned(rf, pos, poison, rnd)
     txns = [t for t in world.pool(rnd, 10) if t.get('date') and t['description'].strip() and t['amount'] != 0]
@@ -250,7 +266,7 @@ def judge_parse(rec, rf, cls, poison, pos, rows, tmp, rnd):
             return
     rec.count('parse_generic_csv_checks')
     a, b = outs
-    states_fail = all(poison_fails([dict(t, description=t['description'].strip(), source='Amex')], poison, rows) for t in txns)
+    states_fail = all(poison_fails([dict(t, description=t['description'].strip(), source='Amex')], poison, rows) is True for t in txns)
     if len(a) != len(b):
         rec.violation('failing-element-loses-rows', f'{cls} at {pos}: {len(a)} transactions with the failing element, {len(b)} without',
                       {'kind': 'poison', 'rf': rf.to_json(), 'cls': cls, 'poison': poison, 'pos': pos, 'rows': rows, 'txns': []})
